@@ -23,7 +23,8 @@ pub struct Obs {
     pub detail: String,
 }
 
-pub const TICK_LIMIT: i64 = 2;
+/// `tick` succeeds this many times (TickLimit of the specification; `--tick N`).
+pub static TICK_LIMIT: std::sync::atomic::AtomicI64 = std::sync::atomic::AtomicI64::new(2);
 
 /// `mk M N`: records <<M, $?>> and returns N.
 fn mk_main(env: &mut VEnv, args: Vec<Field>) -> Pin<Box<dyn Future<Output = BResult> + '_>> {
@@ -36,14 +37,14 @@ fn mk_main(env: &mut VEnv, args: Vec<Field>) -> Pin<Box<dyn Future<Output = BRes
     })
 }
 
-/// `tick`: increments the shell variable TK; succeeds while TK <= TICK_LIMIT.
+/// `tick`: increments the shell variable TK; succeeds while TK <= the tick limit.
 fn tick_main(env: &mut VEnv, _args: Vec<Field>) -> Pin<Box<dyn Future<Output = BResult> + '_>> {
     Box::pin(async move {
         let cur = env.variables.get_scalar("TK").and_then(|s| s.parse::<i64>().ok()).unwrap_or(0);
         let next = cur + 1;
         let mut var = env.get_or_create_variable("TK", Scope::Global);
         let _ = var.assign(next.to_string(), None);
-        BResult::new(ExitStatus(if next <= TICK_LIMIT { 0 } else { 1 }))
+        BResult::new(ExitStatus(if next <= TICK_LIMIT.load(std::sync::atomic::Ordering::Relaxed) { 0 } else { 1 }))
     })
 }
 
